@@ -10,6 +10,9 @@ pub open spec fn le64(s: Seq<u8>) -> u64 {
     ((le32(s.skip(4)) as u64) * 0x1_0000_0000 + (le32(s) as u64)) as u64
 }
 pub open spec fn enc_be16(v: u16) -> Seq<u8> { seq![(v / 256) as u8, (v % 256) as u8] }
+pub open spec fn enc_be32(v: u32) -> Seq<u8> {
+    seq![((v / 0x100_0000) % 256) as u8, ((v / 0x1_0000) % 256) as u8, ((v / 0x100) % 256) as u8, (v % 256) as u8]
+}
 pub open spec fn enc_le32(v: u32) -> Seq<u8> {
     seq![(v % 256) as u8, ((v / 0x100) % 256) as u8, ((v / 0x1_0000) % 256) as u8, ((v / 0x100_0000) % 256) as u8]
 }
